@@ -321,20 +321,13 @@ def rule_jn_dispatch(cx, rep, port):
     mod = cx.engine_mod(port)
     sp = p.func(mod, 'shallow_parse_input_query')
     consts = p.module_consts(mod)
-    tables = [n for n in walk_no_nested(sp) if isinstance(n, ast.Subscript) and isinstance(n.value, ast.Dict) and 'join_subtype' in node_text(n.slice)]
-    if len(tables) != 1:
-        raise Undecided('joiner dispatch table not found', sp)
-    d = tables[0].value
-    got = {}
-    for k, v in zip(d.keys, d.values):
-        kv = const_value(k, consts)
-        got[kv] = dotted(v)
+    got, d = _joiner_mapping(p, mod, sp, consts)
     want = {'JOIN': 'InnerJoiner', 'INNER JOIN': 'InnerJoiner', 'LEFT JOIN': 'LeftJoiner', 'LEFT OUTER JOIN': 'LeftJoiner', 'STRICT LEFT JOIN': 'StrictLeftJoiner'}
     if got == want:
         rep.holds('joiner table', d, 'JOIN/INNER -> Inner, LEFT/LEFT OUTER -> Left, STRICT LEFT -> StrictLeft')
     else:
         diff = {k: (got.get(k), want.get(k)) for k in set(got) | set(want) if got.get(k) != want.get(k)}
-        rep.violated('joiner table', d, 'join keyword -> joiner mapping differs: {}'.format(diff))
+        rep.violated('joiner table', d, 'join keyword -> joiner mapping differs (got, expected): {}'.format(diff))
     # totality over the join statement group
     groups = _statement_groups(cx, port)
     jg = [g for g in groups if 'JOIN' in g]
@@ -352,6 +345,37 @@ def rule_jn_dispatch(cx, rep, port):
                 seq.append(('map', n.lineno))
     order = [s[0] for s in sorted(seq, key=lambda s: s[1])]
     rep.decide(order == ['map', 'build', 'construct'], 'build before joiner', sp, 'HashJoinMap -> build() -> joiner (the LEFT JOIN null record needs the final width)', 'join map construction order is {} (must be map, build, construct): LeftJoiner would see max_record_len = 0'.format(order))
+
+
+def _joiner_mapping(p, mod, sp, consts):
+    """keyword -> joiner class name, resolved through: dict literal subscript, module-level dict, and `.get(key, default)`"""
+    def dict_of(e):
+        if isinstance(e, ast.Dict):
+            return e
+        if isinstance(e, ast.Name):
+            for st in p.modules[mod].body:
+                if isinstance(st, ast.Assign) and isinstance(st.targets[0], ast.Name) and st.targets[0].id == e.id and isinstance(st.value, ast.Dict):
+                    return st.value
+            for st in walk_no_nested(sp):
+                if isinstance(st, ast.Assign) and isinstance(st.targets[0], ast.Name) and st.targets[0].id == e.id and isinstance(st.value, ast.Dict):
+                    return st.value
+        return None
+    cands = []
+    for n in walk_no_nested(sp):
+        if isinstance(n, ast.Subscript) and 'join_subtype' in node_text(n.slice) and dict_of(n.value) is not None:
+            cands.append((dict_of(n.value), None, n))
+        if isinstance(n, ast.Call) and isinstance(n.func, ast.Attribute) and n.func.attr == 'get' and n.args and 'join_subtype' in node_text(n.args[0]) and dict_of(n.func.value) is not None:
+            cands.append((dict_of(n.func.value), n.args[1] if len(n.args) > 1 else ast.Constant(value=None), n))
+    if len(cands) != 1:
+        raise Undecided('joiner dispatch table not found', sp)
+    d, default, node = cands[0]
+    got = {}
+    for k, v in zip(d.keys, d.values):
+        got[const_value(k, consts)] = dotted(v)
+    if default is not None:
+        for kw in ('JOIN', 'INNER JOIN', 'LEFT JOIN', 'LEFT OUTER JOIN', 'STRICT LEFT JOIN'):
+            got.setdefault(kw, dotted(default) if not (isinstance(default, ast.Constant) and default.value is None) else None)
+    return got, node
 
 
 def _statement_groups(cx, port):
